@@ -520,17 +520,28 @@ class Guard:
         if inner is not None and inner.get("k") in ("MethodCall", "Call") and self.depth < 2:
             di = inner.get("inst", inner.get("def")) if inner["k"] == "MethodCall" else strip(inner["f"]).get("inst", strip(inner["f"]).get("def"))
             recv_ok = False
+            arg_paths = None
             if inner["k"] == "MethodCall":
                 recv_ok = self.path_of(inner["recv"]) == "" and not inner["args"]
             else:
                 recv_ok = len(inner["args"]) == 1 and self.path_of(inner["args"][0]) == ""
+                if not recv_ok and inner["args"]:
+                    # `validate_stopping(&self.0.stopping)?`: a free helper that is handed (parts of) the parameters
+                    ps_ = [self.path_of(a) for a in inner["args"]]
+                    if all(p_ is not None for p_ in ps_):
+                        recv_ok, arg_paths = True, ps_
             if di is not None and recv_ok:
                 callee = next((f for f in self.c.fns if f["def"] == di and f is not self.fn), None)
+                if callee is not None and arg_paths is not None and not (len(callee["params"]) == len(arg_paths) and all(p_.get("k") == "Bind" for p_ in callee["params"])):
+                    callee = None
         if callee is None:
             self.effect(m)
             return inp
         sub = Guard(callee, self.f, self.w, self.integer)
         sub.depth = self.depth + 1
+        if arg_paths is not None:
+            for p_, path_ in zip(callee["params"], arg_paths):
+                sub.env[p_["local"]] = path_
         try:
             sub.run_value(callee["body"], inp)
         except Unclassified as e:
